@@ -59,7 +59,9 @@ def family(seed, count):
         g = parse_simple(txt, name=name); g.meta['family'] = 'pratt'; out.append(g)
     rng = random.Random(seed * 7 + 11)
     for i in range(count): out.append(family_member(rng, i))
-    return out
+    # symbol twins: operators declared and referenced (also in `right`) by symbol go through the Regex::Symbol / Str arms
+    tw = [gram.symbolize(g, set(g.tokens[1::2]) if i % 2 else set(g.tokens)) for i, g in enumerate(out) if (i + seed) % 3 == 0]
+    return out + tw
 
 # ---------------------------------------------------------------- branch table from the model (not from binding_power)
 def branch_table(g):
